@@ -25,7 +25,8 @@ def adapter(draw, kinds):
     if k == "sum":
         return ["sum", draw(st.sampled_from([0.0, None, 0.5])), draw(st.booleans())]
     if k == "dfix":
-        return ["dfix", draw(st.integers(0, 8))]
+        # a quarter of the fixed delays are a user-written ITimeDelayAdapter instead of the shipped DelayFixed
+        return ["dfix", draw(st.integers(0, 8))] + (["custom"] if draw(st.integers(0, 3)) == 0 else [])
     if k == "dpull":
         return ["dpull", draw(st.integers(1, 3)), draw(st.integers(0, 3))]
     return [k]
